@@ -169,6 +169,21 @@ def run(case):
     if len(el.points) != nb and not cls.startswith("Constant"):
         bad("points", "number of element points vs number of functions", len(el.points), nb)
 
+    # (0) results of different evaluation points must be independent arrays (a region keeps the results of all
+    #     quadrature points alive at the same time): evaluate at r1, keep the result, evaluate at r2, look again
+    for fname in ("function", "gradient") + (("hessian",) if hasattr(el, "hessian") else ()):
+        fn = getattr(el, fname)
+        r1 = np.array([x[1]] * dim, dtype=float)
+        r2 = np.array([x[-2]] * dim, dtype=float) * 0.7 + 0.1
+        a1 = fn(r1)
+        keep = np.array(a1, dtype=float, copy=True)
+        a2 = fn(r2)
+        ntrans += 2
+        if not np.array_equal(np.asarray(a1, dtype=float), keep):
+            bad(f"aliasing/{fname}", f"the array returned by {fname}(r1) changed when {fname}(r2) was evaluated (shared result buffer)", float(np.abs(np.asarray(a1, float) - keep).max()), 0)
+        if not np.array_equal(r1, np.array([x[1]] * dim, dtype=float)):
+            bad(f"input/{fname}", "evaluation point modified", r1.tolist(), "unchanged")
+
     # (v) degree bound: interpolate the tabulated function onto a shifted lattice
     y = lo + (hi - lo) * (np.arange(n + 1) + 0.37) / (n + 1.3)
     L = bary_matrix(x, y)
